@@ -230,7 +230,12 @@ func checkParse(r *lib.Run, entries []string) (netutil.TrustedNetworks, []prefix
 		return got, nil, false
 	}
 	for i := range ref {
-		if g := gotPrefix(got[i]); g != ref[i] {
+		// representation-neutral: host bits Gate may have kept are masked off before comparing
+		g := gotPrefix(got[i])
+		if g.Bits >= 0 && g.Bits <= 8*g.Addr.Len {
+			g.Addr = maskBits(g.Addr, g.Bits)
+		}
+		if g != ref[i] {
 			r.Violation("parse-wrong-prefix", fmt.Sprintf("entry %q parsed as %v, reference %x/%d", entries[i], got[i], ref[i].Addr.B[:ref[i].Addr.Len], ref[i].Bits), w)
 			return got, nil, false
 		}
